@@ -46,8 +46,9 @@ func runC18(c *core.Ctx) {
 			})
 			c.Check(ok, "no request while suspended", "T4 GuardedBy", r.Pos(), "RequestChunks is reached only on the Suspend()==false edge", "chunks can be requested while suspended: "+f.DescribePath(wit))
 			want := core.ParseLinCmp("requested - processed - P + 1 <= 0")
+			// locals holding parts of the comparison (target := processed + P) are looked through while current
 			ok2, wit2 := f.GuardedBy(r.Pt, func(ft core.Fact) bool {
-				lc, k := core.NormLinCmp(f.Info(), ft, namer)
+				lc, k := c18NormLinCmp(f, ft, namer)
 				return k && lc.Equal(want)
 			})
 			c.Check(ok2, "request only below the window", "T4 GuardedBy", r.Pos(), "RequestChunks is reached only when requested < processed + ParallelChunksDownload", "chunks can be requested with the window already full: "+f.DescribePath(wit2))
@@ -57,24 +58,38 @@ func runC18(c *core.Ctx) {
 			if nv != nil {
 				as := assignsToVar(f, nv)
 				if len(as) == 1 && as[0].RHS != nil {
-					l := core.Linearize(f.Info(), as[0].RHS, namer)
-					wantN := core.ParseLinCmp("processed + P - requested == 0")
-					got := core.LinCmp{Form: l, Op: "=="}
-					// compare up to sign normalisation: build comparison "n_expr == 0" through a synthetic fact is not possible; compare coefficients directly
-					okN = len(l.Coef) == 3 && l.C.Sign() == 0 && coefIs(l, "processed", 1) && coefIs(l, "P", 1) && coefIs(l, "requested", -1)
-					_ = wantN
-					_ = got
+					// n's defining expression, evaluated where it is defined
+					okN = c18LinIs(c18LinAt(f, as[0].RHS, namer, as[0].Pt), map[string]int64{"processed": 1, "P": 1, "requested": -1})
 				}
-				// requested += n before the call
-				okInc := false
+				// the counter is advanced by n (requested += n, requested = requested + n, or set to
+				// processed + P, which is the same value) before the call, and in no other way
+				namerN := func(e ast.Expr) string {
+					if varOf(f, e) == nv {
+						return "n"
+					}
+					return namer(e)
+				}
+				okInc, okOnly := false, true
 				for _, a := range assignsToField(f, plT+".totalRequested") {
-					if a.Tok == token.ADD_ASSIGN && varOf(f, a.RHS) == nv {
-						if o, _ := f.MustPassBefore([]core.Point{a.Pt}, r.Pt); o {
-							okInc = true
+					good := false
+					switch a.Tok {
+					case token.ADD_ASSIGN:
+						good = a.RHS != nil && c18LinIs(c18LinAt(f, a.RHS, namerN, a.Pt), map[string]int64{"n": 1})
+					case token.ASSIGN:
+						if a.RHS != nil {
+							l := c18LinAt(f, a.RHS, namerN, a.Pt)
+							good = c18LinIs(l, map[string]int64{"requested": 1, "n": 1}) || c18LinIs(l, map[string]int64{"processed": 1, "P": 1})
 						}
 					}
+					if !good {
+						okOnly = false
+						continue
+					}
+					if o, _ := f.MustPassBefore([]core.Point{a.Pt}, r.Pt); o {
+						okInc = true
+					}
 				}
-				okN = okN && okInc
+				okN = okN && okInc && okOnly
 			}
 			c.Check(okN, "window is filled exactly", "provenance", r.Pos(), "n = processed + P - requested is added to requested and exactly n chunks are requested", "the number of chunks requested does not match the bookkeeping (requested-but-unprocessed can exceed the parallelism limit)")
 		}
@@ -115,7 +130,24 @@ func runC18(c *core.Ctx) {
 			ok, _ := sw.GuardedBy(a.Pt, func(ft core.Fact) bool {
 				return ft.Truth && isCallTo(sw, ft.Expr, plP+"EpochDownloaderCallbacks.IsProcessed") != nil
 			})
-			c.Check(ok && a.Tok == token.INC, "processed counted once per processed chunk", "T4 GuardedBy", a.Stmt.Pos(), "totalProcessed++ on the IsProcessed edge; the chunk is dropped from the list there", "processed chunks are miscounted")
+			// processed++ / processed += 1 / processed = processed + 1
+			byOne := a.Tok == token.INC
+			if a.RHS != nil {
+				swNamer := func(e ast.Expr) string {
+					if fieldNameOf(sw, e) == plT+".totalProcessed" {
+						return "processed"
+					}
+					return ""
+				}
+				l := c18LinAt(sw, a.RHS, swNamer, a.Pt)
+				switch a.Tok {
+				case token.ADD_ASSIGN:
+					byOne = len(l.Coef) == 0 && l.C.IsInt64() && l.C.Int64() == 1
+				case token.ASSIGN:
+					byOne = len(l.Coef) == 1 && coefIs(l, "processed", 1) && l.C.IsInt64() && l.C.Int64() == 1
+				}
+			}
+			c.Check(ok && byOne, "processed counted once per processed chunk", "T4 GuardedBy", a.Stmt.Pos(), "totalProcessed++ on the IsProcessed edge; the chunk is dropped from the list there", "processed chunks are miscounted")
 		}
 		c.ExpectAtLeast("totalProcessed updates", nInc, 1)
 	})
